@@ -227,6 +227,9 @@ class DataOps:
         return [s for s in self.pool.of_kind(*kinds) if (s.sem is not None or not sem_only)]
 
     def pick(self, o, key='t', kinds=('dataset', 'tdataset'), sem_only=False):
+        if 'sid' in o and key == 't':
+            s_ = self.pool.slots[o['sid']]
+            return s_ if (s_.alive and s_.kind in kinds and (s_.sem is not None or not sem_only)) else None
         c = self.data(kinds, sem_only)
         if not c:
             return None
@@ -401,6 +404,25 @@ class DataOps:
         self.check(t, 'sort_by:' + t.kind)
         self.pool.sweep('sort_by', target=t.sid, inplace=True)
         self.ctx.behaviour('sort_by', t.kind, t.op, len(set(vals)) < len(vals))
+
+    def op_redo_after_sort(self, o):
+        """a value-returning op, then an in-place sort of its *source*, then the same op with the same arguments again:
+        the second result must describe the object as it is now (no stale derived state)"""
+        src = self.pick(o)
+        if src is None:
+            return False
+        which = ['split_obs', 'split_channel', 'subset_obs', 'odd_even_split', 'time_as_observations', 'split_time',
+                 'average_by'][o['a'][5] % 7]
+        fn = getattr(self, 'op_' + which)
+        o1 = {**o, 'sid': src.sid}
+        if fn(o1) is False:
+            return False
+        o2 = {**o, 'sid': src.sid, 'a': [o['a'][4]] + o['a'][1:]}
+        self.op_sort_by(o2)
+        if not src.alive:
+            return
+        fn(o1)
+        self.ctx.probe('redo_after_sort')
 
     def op_array_write_ds(self, o):
         t = self.pick(o)
